@@ -309,6 +309,44 @@ theorem prinv_of_reinit (mk : List α → α) (s : PR α) (name : Option String)
         · exact prinv_setOcc (hm _ _ _) _ _
         · exact hm _ _ _
 
+/-- **Naming an existing result** refines the specification: one more value for the name, list-all iff not modal,
+    all other names and list-all flags untouched (pyparsing aa3fe24; before it a list-all name *replaced* the set). -/
+theorem reinit_refines (mk : List α → α) (s : PR α) (name : Option String) (asList modal : Bool) :
+    abs (reinit mk s name asList modal) = (abs s).reinit mk name asList modal := by
+  have hla : ∀ (nm : String) (t : List α) (d : Dict (List (α × Int))),
+      abs ({ toks := t, dict := d,
+             all := if modal then s.all else (if nm ∈ s.all then s.all else s.all ++ [nm]),
+             name := some nm, modal := modal } : PR α)
+      = { toks := t, order := dkeys d, vals := fun k => ((dget d k).getD []).map (·.1),
+          la := fun k => (abs s).la k || (!modal && decide (k = nm)) } := by
+    intro nm t d
+    refine Abs.ext' rfl rfl (fun _ => rfl) (fun k => ?_)
+    simp only [abs]
+    cases modal
+    · by_cases h1 : nm ∈ s.all <;> by_cases h2 : k = nm <;> by_cases h3 : k ∈ s.all <;> simp_all
+    · simp
+  unfold reinit Abs.reinit
+  cases name with
+  | none => rfl
+  | some nm =>
+    simp only
+    by_cases hn : nm = ""
+    · simp only [hn, if_true]; rfl
+    · simp only [hn, if_false]
+      cases asList
+      · simp only [Bool.false_eq_true, if_false]
+        cases ht : s.toks with
+        | nil =>
+          have : (abs s).toks = [] := ht
+          simp only [this]
+          rw [← ht]; exact hla nm s.toks s.dict
+        | cons v vs =>
+          have : (abs s).toks = v :: vs := ht
+          simp only [this]
+          rw [abs_setOcc, ← ht, hla nm s.toks s.dict]; rfl
+      · simp only [if_true]
+        rw [abs_setOcc, hla nm s.toks s.dict]; rfl
+
 example : ∃ s, ctor (fun v => v ++ "!") (.list ["a", "b"]) (some "n") true false = .ok s ∧ s.all = ["n"] ∧
     (step s (.getName "n")).2 = .view (.many ["a!"]) := ⟨_, rfl, rfl, by decide +kernel⟩
 
